@@ -33,6 +33,11 @@ pub enum Prog {
     TwoCommits(u8),
     /// a full Replica::sync against a (private, empty) harness server: pushes everything pending
     Sync,
+    /// ONE commit of `n` operations on task 0: x := "A" first, fillers, y := "A" last. Only the
+    /// transaction boundaries (begin / commit) of this handle are scheduling points.
+    BigCommit(u16),
+    /// one small commit x := "B", y := "B" on task 0
+    CommitXY,
 }
 
 #[derive(Clone, Debug, PartialEq, serde::Serialize, serde::Deserialize)]
@@ -42,6 +47,8 @@ pub enum Ev {
     Undone(bool, Vec<Operation>),
     Rebuilt,
     Read(usize),
+    /// what a reader saw of task 0's x and y (only ever written together, by one commit)
+    Saw(Option<String>, Option<String>),
     /// a sync completed: the operations it sent to the server
     Synced(Vec<crate::model::ops::MOp>),
     Failed(String),
@@ -107,6 +114,9 @@ async fn run_prog(dir: PathBuf, prog: Prog, gate: GateH) -> Vec<Ev> {
     };
     let ctl = Ctl::new();
     *ctl.gate.lock().unwrap() = gate;
+    if matches!(prog, Prog::BigCommit(_)) {
+        *ctl.gate_filter.lock().unwrap() = vec!["txn", "commit"];
+    }
     let (proxy, _back) = Proxy::new(st, ctl);
     let mut r = Replica::new(proxy);
     macro_rules! commit {
@@ -180,8 +190,36 @@ async fn run_prog(dir: PathBuf, prog: Prog, gate: GateH) -> Vec<Ev> {
                 Err(e) => log.push(Ev::Failed(format!("sync: {e:#}"))),
             }
         }
+        Prog::BigCommit(n) => match r.get_task_data(t(0)).await {
+            Ok(Some(mut td)) => {
+                let mut o = vec![];
+                td.update("x", Some("A".into()), &mut o);
+                for i in 0..n.saturating_sub(2) {
+                    td.update("f", Some(i.to_string()), &mut o);
+                }
+                td.update("y", Some("A".into()), &mut o);
+                commit!(o);
+            }
+            Ok(None) => log.push(Ev::Failed("task 0 missing".into())),
+            Err(e) => log.push(Ev::Failed(format!("read: {e:#}"))),
+        },
+        Prog::CommitXY => match r.get_task_data(t(0)).await {
+            Ok(Some(mut td)) => {
+                let mut o = vec![];
+                td.update("x", Some("B".into()), &mut o);
+                td.update("y", Some("B".into()), &mut o);
+                commit!(o);
+            }
+            Ok(None) => log.push(Ev::Failed("task 0 missing".into())),
+            Err(e) => log.push(Ev::Failed(format!("read: {e:#}"))),
+        },
         Prog::Read => match (r.all_task_data().await, r.working_set().await) {
-            (Ok(a), Ok(_)) => log.push(Ev::Read(a.len())),
+            (Ok(a), Ok(_)) => {
+                log.push(Ev::Read(a.len()));
+                if let Some(m) = a.get(&t(0)) {
+                    log.push(Ev::Saw(m.get("x").map(|s| s.to_string()), m.get("y").map(|s| s.to_string())));
+                }
+            }
             (Err(e), _) | (_, Err(e)) => log.push(Ev::Failed(format!("read: {e:#}"))),
         },
     }
@@ -324,6 +362,7 @@ impl Scenario for Sc17 {
                     Ev::Undone(true, o) => undone.push(o),
                     Ev::Undone(false, _) => failed_undos += 1,
                     Ev::Synced(o) => sent.extend(o),
+                    Ev::Saw(x, y) if x != y => return Err(format!("torn-read: a reader saw x={x:?} and y={y:?} of task 0, which are only ever written together by one commit")),
                     Ev::Failed(m) => return Err(format!("spurious-failure: handle {i} ({:?}): {m}", self.progs[i])),
                     _ => {}
                 }
@@ -412,6 +451,11 @@ fn scenarios(tier: Tier) -> Vec<Sc17> {
         Sc17::new(vec![Sync, CommitNew(1)]),
         Sc17::new(vec![Sync, CommitThenUndo(1), Rebuild(false)]),
     ];
+    // one very large commit (thousands of operations) racing a small one and a reader: still one
+    // transaction, whatever its size
+    let big = if tier == Tier::Quick { 1200 } else { 20000 };
+    v.push(Sc17::new(vec![BigCommit(big), CommitXY]));
+    v.push(Sc17::new(vec![BigCommit(big), Read]));
     // handles in separate processes (SQLite's cross-process file locking instead of its in-process one)
     v.push(Sc17::with_procs(vec![CommitNew(1), CommitNew(2)], vec![true, true]));
     v.push(Sc17::with_procs(vec![Reopen0, Reopen0], vec![true, true]));
@@ -431,7 +475,7 @@ fn scenarios(tier: Tier) -> Vec<Sc17> {
 pub fn run(opts: &Opts) -> i32 {
     let rep = Report::new("C17", "model_checking", opts);
     rep.set("exhaustive", true);
-    rep.set("rule", "2-6 real SqliteStorage handles (each with its own actor thread; in some scenarios each in a child process of its own, driven over a pipe) on one database directory run programs {commit a new pending task, read-modify-write, re-open a completed task, commit + undo, rebuild the working set, read, two commits}; every StorageTxn call of every handle is a scheduling point; a handle may start a transaction only when a harness probe connection (busy_timeout 0, BEGIN IMMEDIATE) finds the write lock free, so the code's real locking decides which interleavings exist; all interleavings are executed; afterwards a fresh handle audits: every successful commit present contiguously and in order, operation count, replay of stored operations = stored tasks, working set without duplicates or lost entries; non-trivial = executions with >= 2 successful commits");
+    rep.set("rule", "2-6 real SqliteStorage handles (each with its own actor thread; in some scenarios each in a child process of its own, driven over a pipe) on one database directory run programs {commit a new pending task, read-modify-write, re-open a completed task, commit + undo, rebuild the working set, read, two commits, a whole Replica::sync, one commit of 1200 (thorough 20000) operations racing a small commit or a reader}; every StorageTxn call of every handle is a scheduling point; a handle may start a transaction only when a harness probe connection (busy_timeout 0, BEGIN IMMEDIATE) finds the write lock free, so the code's real locking decides which interleavings exist; all interleavings are executed; afterwards a fresh handle audits: every successful commit present contiguously and in order, operation count, replay of stored operations = stored tasks, working set without duplicates or lost entries; non-trivial = executions with >= 2 successful commits");
     rep.assume("OS-thread preemption inside the actor thread and inside SQLite is not enumerated: only the order in which handles obtain the write lock, and the position of their individual storage calls relative to other handles' transactions");
     let deadline = std::time::Instant::now() + std::time::Duration::from_secs_f64(opts.budget_s);
     let scs = scenarios(opts.tier);
